@@ -11,6 +11,7 @@ CONSTANTS
   MaxPeer = 3
   MaxPush = 1
   Faults = {"sendErr", "recvErr", "peerClose"}
+  MaxFaults = 2
   RespShapes <- RS_sub1
   Abandon = FALSE
   MaxArr = 1
